@@ -41,6 +41,7 @@ OPS = {"=": PathSearchMethods.EQUALS, "^": PathSearchMethods.STARTS_WITH, "$": P
        ">=": PathSearchMethods.GREATER_THAN_OR_EQUAL, "<=": PathSearchMethods.LESS_THAN_OR_EQUAL,
        "=~": PathSearchMethods.REGEX}
 ALIAS_MODES = {"A": (False, False), "Y": (True, False), "y": (False, True), "l": (True, True)}
+ANCHORS_ONLY = "A"
 
 
 def decide(op, term, inv, value):
@@ -199,8 +200,8 @@ def judge(ctx, case, data, reported_paths, exp, merge_doc, via):
                 last = YAMLPath(s).escaped[-1][0]
             except Exception:
                 sites, last = 0, None
-            if last != PathSegmentTypes.ANCHOR or strs.count(s) > sites:
-                bad.append(s)
+            if last != PathSegmentTypes.ANCHOR or (strs.count(s) > sites and not merge_doc):
+                bad.append(s)        # (a merge reference `hash[&anchor]` stands for every key inherited through it)
         if bad:
             ctx.violation("path-reported-twice/%s" % via, {"case": case, "summary": "duplicates %r" % bad[:4]})
             return
@@ -225,13 +226,32 @@ def judge(ctx, case, data, reported_paths, exp, merge_doc, via):
             return
         ks = []
         for r in res:
+            if last == PathSegmentTypes.ANCHOR and isinstance(r.parent, dict) and any(
+                    m is r.node for (_i, m) in (getattr(r.parent, "merge", None) or [])):
+                continue        # `hash[&anchor]` naming a merge reference: its "parentref" is the anchor name, not a key
             k = (id(r.parent), repr(r.parentref) if not yp.is_set(r.parent) else repr(str(r.parentref)))
             resolved.setdefault(k, s)
             ks.append(k)
         path_sites[s] = ks
+    if merge_doc and case["alias"] == ANCHORS_ONLY:
+        # "discard all aliased keys and values": what a mapping merely inherits through << is an aliased repeat of the
+        # anchored mapping's own children and must not be reported (directly, or as a leaf of an expanded parent)
+        for s in strs:
+            for r in Processor(LOG, data).get_nodes(s, mustexist=True):
+                for (cont, ref) in list(r.ancestry):
+                    if isinstance(cont, dict) and getattr(cont, "merge", None) and not any(
+                            k == ref and type(k) is type(ref) for k, _v in yp.own_items(cont)):
+                        ctx.violation("merged-in-entry-reported-under-anchors-only/%s" % via, {
+                            "case": case, "summary": "%r goes through %r, which its mapping only inherits via <<" % (s, ref)})
+                        return
+        ctx.counters["merge_docs_anchors_only_checked"] = ctx.counters.get("merge_docs_anchors_only_checked", 0) + 1
     if merge_doc:
         # soundness only: every resolved position must be a candidate that is not a definite non-match
-        expk = {p.key(): p for p in exp}
+        expk = {}
+        order = {True: 2, None: 1, False: 0}
+        for p in exp:
+            if p.key() not in expk or order[p.verdict] > order[expk[p.key()].verdict]:
+                expk[p.key()] = p
         for k, s in resolved.items():
             p = expk.get(k)
             if p is not None and p.verdict is False and p.why in ("value", "set-member"):
@@ -369,6 +389,8 @@ def run_shard(ctx):
         x = rng.random()
         if x < 0.04:
             text = rng.choice(MERGE_DOCS)
+        elif x < 0.12:
+            text = gd.gen_merge_doc(rng)
         else:
             regime = rng.choice(["N", "U", "A", "A"])
             text, _ = gd.gen_doc(rng, regime, special_keys=rng.random() < 0.15)
